@@ -259,3 +259,7 @@ def run(P: Program, R: Report, tier: str) -> None:
     if len(ks) != 1:
         raise AnalysisError(f"IoU kernel {kernel_name} of the annotators package: found {len(ks)}")
     labels_are_names(P, R, ks[0], "R09.7")
+    # ---- R09.8 a query of the data model never answers from a memo that some writer forgets to drop
+    from .memo import no_stale_memo
+
+    no_stale_memo(P, R, "R09.8")
